@@ -31,7 +31,7 @@ func allSpecs() map[string]*PropSpec {
 		Technique:   "exact-operation tables over decimal calls on the verdict path (AST+types, SSA call sites), sibling agreement of the two analysis entry points by guard shape, sign-handling check of the number normaliser by slicing",
 		Explanation: "D-EXACT: every operation on decimal.Decimal in parser/analyzer/workspace/server (the path lexer value -> parseAmount -> CheckBalance/sumByCommodity -> message) is from the exact set (Add, Sub, Mul, Neg, Abs, IsZero, IsNegative, Cmp, String, NewFromString ...); T3: both analysis entry points call the balance check for every transaction and emit a diagnostic iff !Balanced; T4: the codes the analyzer writes are exactly the codes the server's filter switches on and UNBALANCED/MULTIPLE_INFERRED are gated by exactly the unbalanced-transactions setting; M-ORDER on the message builder. B-REAL: every read of a posting's amount below the balance check is made on a posting from the list that passed the virtual-posting filter (or behind a test of its Virtual field).",
 		NotDecided:  "that separator normalisation, sign placement and cost conversion compute the intended number (value semantics of normalizeNumber, parseAmount, sumByCommodity); hledger's own balancing rule.",
-		Rules:       []func(*Ctx){ruleDecimalExact("internal/parser", "internal/analyzer", "internal/workspace", "internal/server"), ruleNumberSign, ruleT3, ruleT4, ruleMapOrder, ruleBalanceReal},
+		Rules:       []func(*Ctx){ruleDecimalExact("internal/parser", "internal/analyzer", "internal/workspace", "internal/server"), ruleNumberSign, ruleT3, ruleT4, ruleMapOrder, ruleBalanceReal, ruleDiagnosticsOnlyGrow},
 	})
 	add(&PropSpec{
 		ID:          "C12",
@@ -124,7 +124,7 @@ func allSpecs() map[string]*PropSpec {
 		Technique:   "SSA data-flow and field-sensitive slicing of the change handler (thread of the document text through the loop over content changes), unit analysis of offsets (UTF-16 vs byte), census of stores into the document store",
 		Explanation: "C01-THREAD: in the change handler the stored text is a loop-carried value whose only sources are the stored text, a range-less change's text and the ranged applier applied to the running text, visited in list order. C01-STORE: that value is stored after the loop under the notification's URI; didOpen stores the opened text unconditionally; didClose deletes it. C01-OPTIONAL: whole-document replacement is selected by a nil test of an optional *Range, and the server binary routes textDocument/didChange to that handler through an interceptor installed on the connection. C01-CONV: the UTF-16 column is converted against the text of its own line (clamp to line end), lines past the end map to the end of the text. C01-CLAMP: both splice bounds depend on both converted positions (ordering swap) and on len(content). units: UTF-16 / byte / rune quantities are never mixed. C01-SOURCE: every parse on a handler path reads the text from the document store in the same request. C-CACHE: per-document caches filled by handlers are dropped by the change handler. C-FRESH: state written by background goroutines and read by handlers is reported.",
 		NotDecided:  "equality of the stored text with a reference client's buffer over all histories (needs execution); invalid UTF-8 (cannot arrive through JSON).",
-		Rules:       []func(*Ctx){ruleC01, ruleLineStarts, ruleUnits("module", nil)},
+		Rules:       []func(*Ctx){ruleC01, ruleLineStarts, ruleChangeApplied, ruleUnits("module", nil)},
 	})
 	fmtRules := []func(*Ctx){ruleFormatterEdits, ruleT14, ruleT15, ruleDecimalLossyGuard, ruleUnits("module", nil), ruleRepeat, ruleErrorsRecorded, ruleGroupingSign}
 	add(&PropSpec{
